@@ -448,10 +448,13 @@ func runC05Counters(c *Ctx, ea *engineAnchors) {
 			en = append(en, t)
 		}
 		nEval := enumGrid(en, 0, 3, bools, nil, func(a Asg) bool {
-			row, err := selectPath(body, a)
+			row, err := selectBodyPath(body, a)
 			if err != "" {
 				bad = append(bad, "table self-check: "+err)
 				return false
+			}
+			if row == nil {
+				return true
 			}
 			if row.End != "continue" {
 				bad = append(bad, "the loop can stop early ("+row.End+")")
